@@ -20,6 +20,8 @@ import (
 	"sort"
 	"strconv"
 	"strings"
+	"sync/atomic"
+	"time"
 )
 
 // Out collects the line-aligned streams.
@@ -144,22 +146,42 @@ func evalOp(line string) string {
 	return evalOpHere(line)
 }
 
-func evalOpHere(line string) (res string) {
-	defer func() {
-		if e := recover(); e != nil {
-			res = "panic"
-			if os.Getenv("VERIF_DEBUG") != "" {
-				res = fmt.Sprintf("panic:%v", e)
-				debug.PrintStack()
-			}
-		}
-	}()
+// opHangs counts in-process ops abandoned because the implementation never returned (e.g. a leaked lock).
+var opHangs atomic.Int64
+
+func evalOpHere(line string) string {
 	parts := strings.Split(line, " ")
 	fn, ok := evaluators[parts[0]]
 	if !ok {
 		return "bad-op"
 	}
-	return fn(parts[1:])
+	done := make(chan string, 1)
+	go func() {
+		defer func() {
+			if e := recover(); e != nil {
+				res := "panic"
+				if os.Getenv("VERIF_DEBUG") != "" {
+					res = fmt.Sprintf("panic:%v", e)
+					debug.PrintStack()
+				}
+				done <- res
+			}
+		}()
+		done <- fn(parts[1:])
+	}()
+	// an op that never returns is reported as "hang" (its goroutine is abandoned); once that has happened the patience for
+	// the remaining ops is short, so that a deadlocking implementation costs minutes, not the whole time budget
+	limit := 400 * time.Second
+	if opHangs.Load() > 0 {
+		limit = 120 * time.Second
+	}
+	select {
+	case res := <-done:
+		return res
+	case <-time.After(limit):
+		opHangs.Add(1)
+		return "hang"
+	}
 }
 
 // do emits an op after evaluating it on the implementation.
